@@ -396,5 +396,5 @@ def same_key(k1: Any, k2: Any) -> bool:
 
     try:
         return True if k1 == k2 else False
-    except TypeError:
-        return False  # EAFP :)
+    except (TypeError, ValueError, ArithmeticError):
+        return False  # EAFP :) Not comparable values, e.g. a number and a non-numeric untyped value
